@@ -23,7 +23,7 @@ func init() {
 			"R19-eofdata — the buffered read helpers report end-of-file only when they collected no bytes; R19-modes — ioOpenFile's mode switch equals the ISO C fopen table (flags per mode from the os package's constants for the analysed GOOS; 'r' not writable, 'w' not readable). " +
 			"R19-buffers — flush gives the read-ahead back (so that a write after read+flush lands at the cursor), seek and setvbuf write buffered output out before they move the file or replace the buffer, lines are read by one helper that ends a line at the newline only and joins pieces longer than the buffer (bufio's ReadLine, which also strips a carriage return and splits long lines, is not called), io.output truncates like fopen(name, w), and a byte count handed to the reader is not negative. NOT decided: the byte-sequence model itself (what is read after which writes).",
 		Trusted: []string{"ISO C fopen mode table (C11 7.21.5.3) written out in the checker"},
-		Rules:   []func(*Ctx){ruleClosed, ruleReconcile, ruleEofData, ruleModes, ruleIoBuffers, ruleWriterWraps, ruleClosedFirst, ruleStdStreams},
+		Rules:   []func(*Ctx){ruleClosed, ruleReconcile, ruleEofData, ruleModes, ruleIoBuffers, ruleWriterWraps, ruleClosedFirst, ruleStdStreams, ruleReadBounded},
 	})
 }
 
@@ -598,6 +598,21 @@ func ruleIoBuffers(c *Ctx) {
 	// flush: every normal return passes AbandonReadBuffer
 	if fn := c.need(R, "lua", "fileFlushAux"); fn != nil && abandon != nil {
 		n := len(callsTo(fn, abandon))
+		if n > 0 {
+			// …on every path to the successful return (the one that answers with a single value)
+			g := p.G(fn)
+			okAll, _ := g.MustPassBefore(fn.Blocks[0], 0, func(in ssa.Instruction) bool { return isCallTo(in, abandon) }, func(in ssa.Instruction) bool {
+				ret, ok := in.(*ssa.Return)
+				if !ok || len(ret.Results) != 1 {
+					return false
+				}
+				k, isK := constInt(ret.Results[0])
+				return isK && k == 1
+			})
+			if !okAll {
+				n = 0
+			}
+		}
 		c.check(n > 0, R, "fileFlushAux:gives-read-ahead-back", p.pos(fn.Pos()), "flush abandons the read buffer", "flush does not give the read-ahead back: after read(2); flush() on an r+ handle a write lands behind what was read ahead (at the end of a short file) instead of at offset 2")
 	}
 	// seek: Flush precedes the file seek
